@@ -26,13 +26,27 @@ def run(tier):
     for N in range(1, 5):
         for m in range(1, N + 1):
             for lst in itertools.permutations(range(N), m):
+                # one complete dictionary with pairwise different counts (any mis-ordering of the listed qubits changes some marginal total) + random ones
+                full = {format(b, f"0{N}b"): 1 + 3 * b + (b * b) % 7 for b in range(1 << N)}
+                mjobs.append((full, list(lst), N))
                 for _ in range(1 if quick else 4):
                     mjobs.append((C10.random_counts(N, rng), list(lst), N))
         mjobs.append((C10.random_counts(N, rng), None, N))
     for N in range(5, 9):
-        for _ in range(20 if quick else 300):
+        for _ in range(60 if quick else 600):
             m = rng.randrange(1, min(N, 6) + 1)
-            mjobs.append((C10.random_counts(N, rng), rng.sample(range(N), m), N))
+            lst = rng.sample(range(N), m)
+            if rng.random() < 0.5:      # gap-free sets of qubits in scrambled order (what a "contiguous block" shortcut would mistake for a block)
+                lo = rng.randrange(0, N - m + 1)
+                lst = list(range(lo, lo + m))
+                if m > 2 and rng.random() < 0.7:
+                    inner = lst[1:-1]
+                    rng.shuffle(inner)
+                    lst = [lst[0]] + inner + [lst[-1]]
+                else:
+                    rng.shuffle(lst)
+            full = {format(b, f"0{N}b"): 1 + (5 * b + (b * b) % 11) % 997 for b in range(1 << N)} if N <= 6 else C10.random_counts(N, rng)
+            mjobs.append((full, lst, N))
     mrecs = par.pmap(workers.marginal, mjobs)
     for r in mrecs:
         if r["exc"]:
